@@ -259,7 +259,7 @@ Classify(r) ==
 \* classified exactly once by passing them through operator PARAMETERS (call by need) and TLCEval.
 ClassifyAll(rec) == TLCEval([i \in 1..Len(rec) |-> TLCEval(Classify(rec[i]))])
 
-Why(tag, S, cl, F(_)) == \A i \in S : (Cardinality({j \in S : j < i}) < 40) => PrintT(<<"WHY", tag, i, F(cl[i])>>)
+Why(tag, S, cl, F(_)) == \A i \in S : (Cardinality({j \in S : j < i}) < 200) => PrintT(<<"WHY", tag, i, F(cl[i])>>)
 Report(cl) ==
     LET all == 1..Len(cl) IN
     /\ PrintT(<<"CHECKED", Len(cl)>>)
